@@ -107,8 +107,9 @@ int hwloc_decode_from_base64(char const *src, char *target, size_t targsize)
  * an info list is released by hwloc__free_infos */
 struct hwloc_bitmap_s { int live; };
 unsigned verif_bm_allocs, verif_bm_released, verif_infos_freed, verif_register_calls;
-hwloc_bitmap_t hwloc_bitmap_alloc(void) { struct hwloc_bitmap_s *b = malloc(sizeof(*b)); __CPROVER_assume(b != 0); b->live = 1; verif_bm_allocs++; return b; }
-void hwloc_bitmap_free(hwloc_bitmap_t b) { if (b) { __CPROVER_assert(b->live, "no double free of a cpuset"); b->live = 0; verif_bm_released++; } }
+hwloc_bitmap_t verif_last_bm; int verif_last_bm_live;      /* ghost copy of the last allocation's state (the jobs allocate at most one cpuset) */
+hwloc_bitmap_t hwloc_bitmap_alloc(void) { struct hwloc_bitmap_s *b = malloc(sizeof(*b)); __CPROVER_assume(b != 0); b->live = 1; verif_bm_allocs++; verif_last_bm = b; verif_last_bm_live = 1; return b; }
+void hwloc_bitmap_free(hwloc_bitmap_t b) { if (b) { __CPROVER_assert(b->live, "no double free of a cpuset"); b->live = 0; verif_bm_released++; if (b == verif_last_bm) verif_last_bm_live = 0; } }
 int hwloc_bitmap_sscanf(hwloc_bitmap_t b, const char *string) { __CPROVER_assert(b->live, "cpuset used while allocated"); (void)strlen(string); return nondet_bool() ? 0 : -1; }
 int hwloc__add_info(struct hwloc_infos_s *infos, const char *name, const char *value) { (void)name[0]; (void)value[0]; infos->count++; return 0; }
 void hwloc__free_infos(struct hwloc_infos_s *infos) { (void)infos->count; verif_infos_freed++; }
@@ -127,7 +128,7 @@ int hwloc_internal_memattr_set_value(hwloc_topology_t topology, hwloc_memattr_id
   __CPROVER_assert(target_type >= HWLOC_OBJ_TYPE_MIN && target_type < HWLOC_OBJ_TYPE_MAX, "set_value receives a valid target type");
   if (initiator) {
     __CPROVER_assert(initiator->type == HWLOC_LOCATION_TYPE_CPUSET || initiator->type == HWLOC_LOCATION_TYPE_OBJECT, "set_value receives a typed initiator");
-    if (initiator->type == HWLOC_LOCATION_TYPE_CPUSET) __CPROVER_assert(initiator->location.cpuset != 0 && initiator->location.cpuset->live, "initiator cpuset is live (set_value copies it)");
+    if (initiator->type == HWLOC_LOCATION_TYPE_CPUSET) __CPROVER_assert(initiator->location.cpuset != 0 && initiator->location.cpuset == verif_last_bm && verif_last_bm_live, "initiator cpuset is the live cpuset just allocated (set_value copies it)");
     else __CPROVER_assert(initiator->location.object.type >= HWLOC_OBJ_TYPE_MIN && initiator->location.object.type < HWLOC_OBJ_TYPE_MAX, "initiator object type is valid");
   }
   verif_setvalue_calls++;
